@@ -57,6 +57,11 @@ def main():
     except Exception:  # noqa: BLE001
         print(f"HARNESS-ERROR property={args.pid}:\n{traceback.format_exc()}")
         return 2
+    if ctx.deferred_errors and not ctx.violations:
+        print(f"HARNESS-ERROR property={args.pid}: {ctx.deferred_errors[0]}")
+        return 2
+    for e in ctx.deferred_errors[:3]:
+        ctx.note("harness inconsistency seen next to real violations: " + e[:400])
     ev = ctx.write_evidence()
     for key, h in sorted(ctx.known_hits.items()):
         print(f"KNOWN-FINDING: property={args.pid} {key}: {h['what']} (hit {h['count']}x, e.g. {h['first'][:200]})")
